@@ -2,6 +2,10 @@
 //   driver gk <seed> <n>     polynomial integrands, swapped / NaN / infinite bounds, tolerance-driven refinement
 //   driver rk <seed> <n>     y' = p(t) with polynomial p, canonical and random final-time cases
 //   driver loops <seed> <n>  scripted acceptance/rejection sequences: the control skeleton of the time loops
+//   driver gkop <file> 0     the 4-argument GaussKronrodQuadrature::operator() on integrands given as data (one case per
+//                            line: G id m tol a b np p_0.. nq q_0.. c d, numbers as hex doubles / nan / inf):
+//                            f(x) = NaN if c <= x <= d else horner(p,x)/horner(q,x); prints R id some|none value calls
+//                            (compile with -ffp-contract=off: the outputs are compared bit for bit with the Coq model)
 #include <cmath>
 #include <cstdint>
 #include <cstdio>
@@ -117,6 +121,19 @@ static int run_gk(uint64_t seed, int n) {
     std::printf("GKTOL %d %.17g %.17g %.3g %zu -> ", c.id, c.a, c.b, tol, nref);
     if (r.has_value()) std::printf("%.17g\n", *r);
     else std::printf("none\n");
+  }
+  // 3-argument overload on unbounded ranges: ONE rule evaluation of the transformed integrand (value, estimate);
+  // compared by the check with post-factor x the rule of the traced tables applied to the documented change of variable
+  auto f5 = [](const double x) { return 1 / (1 + x * x); };
+  for (double av : {0., 1.5, -0.75, 3., -2.25}) {
+    const double ab[5][2] = {{av, inf}, {-inf, av}, {-inf, inf}, {inf, av}, {av, -inf}};
+    static const char* kind[5] = {"right", "left", "line", "rightswap", "leftswap"};
+    for (int k = 0; k < 5; ++k) {
+      const auto r = tfel::math::gauss_kronrod_integrate(f5, ab[k][0], ab[k][1]);
+      std::printf("GKCV %s %.17g -> ", kind[k], av);
+      if (r.has_value()) std::printf("%.17g %.17g\n", std::get<0>(*r), std::get<1>(*r));
+      else std::printf("none none\n");
+    }
   }
   return 0;
 }
@@ -313,13 +330,48 @@ static int run_loops(uint64_t seed, int n) {
   return 0;
 }
 
+// ------------------------------------------------------------------------------------------------ gkop
+static int run_gkop(const char* file) {
+  FILE* in = std::fopen(file, "r");
+  if (in == nullptr) return 2;
+  char tag[8], id[64], tok[64];
+  auto num = [&](double& x) { return std::fscanf(in, "%63s", tok) == 1 && (x = std::strtod(tok, nullptr), true); };
+  while (std::fscanf(in, "%7s", tag) == 1) {
+    unsigned long m = 0;
+    double tol = 0, a = 0, b = 0, c = 0, d = 0;
+    int np = 0, nq = 0;
+    if (std::fscanf(in, "%63s %lu", id, &m) != 2 || !num(tol) || !num(a) || !num(b) || std::fscanf(in, "%d", &np) != 1) return 3;
+    std::vector<double> p(np);
+    for (auto& x : p) if (!num(x)) return 3;
+    if (std::fscanf(in, "%d", &nq) != 1) return 3;
+    std::vector<double> q(nq);
+    for (auto& x : q) if (!num(x)) return 3;
+    if (!num(c) || !num(d)) return 3;
+    long calls = 0;
+    auto f = [&](const double x) -> double {
+      ++calls;
+      if ((c <= x) && (x <= d)) return std::numeric_limits<double>::quiet_NaN();
+      const double n = horner(p, x);
+      const double dn = horner(q, x);
+      return n / dn;
+    };
+    const auto r = tfel::math::gauss_kronrod_integrate(f, a, b, {.absolute_tolerance = tol, .maximum_number_of_refinements = m});
+    if (!r.has_value()) std::printf("R %s none 0 %ld\n", id, calls);
+    else if (*r != *r) std::printf("R %s some nan %ld\n", id, calls);
+    else std::printf("R %s some %a %ld\n", id, *r, calls);
+  }
+  std::fclose(in);
+  return 0;
+}
+
 int main(int argc, char** argv) {
   if (argc < 4) {
-    std::fprintf(stderr, "usage: driver gk|rk|loops <seed> <n>\n");
+    std::fprintf(stderr, "usage: driver gk|rk|loops <seed> <n> | driver gkop <file> 0\n");
     return 2;
   }
   const uint64_t seed = std::strtoull(argv[2], nullptr, 10);
   const int n = std::atoi(argv[3]);
+  if (!std::strcmp(argv[1], "gkop")) return run_gkop(argv[2]);
   if (!std::strcmp(argv[1], "gk")) return run_gk(seed, n);
   if (!std::strcmp(argv[1], "rk")) return run_rk(seed, n);
   if (!std::strcmp(argv[1], "loops")) return run_loops(seed, n);
